@@ -37,6 +37,6 @@ grep -m2 "VERIF-VIOLATION\|\[rapid\] panic\|\[rapid\] failed" /tmp/seedcheck.$$.
 grep "^VIOLATION\|^OK\|^KNOWN\|inconclusive\|build failed" /tmp/seedcheck.$$.log | head -5
 echo "SEED check rc=$rc"
 [ -f /tmp/seedcheck.ev.$$ ] && mv /tmp/seedcheck.ev.$$ evidence/$PROP.json
-rm -f /tmp/seedcheck.$$.log /verif/replays/$PROP/s[0-9]*-* /verif/replays/$PROP/last-violation*
+rm -f /tmp/seedcheck.$$.log /verif/replays/$PROP/s[0-9]*-* /verif/replays/$PROP/last-violation* /verif/replays/$PROP/regression-*
 git -C /repo worktree remove --force "$WT"
 rm -f /verif/harness/alt-$(echo -n "$WT" | md5sum | cut -c1-8).* /verif/.bin/*alt-$(echo -n "$WT" | md5sum | cut -c1-8)*
